@@ -100,6 +100,35 @@ def mutations(repo: Repo, fi: FuncInfo, param: str, depth: int = 2,
     # aliases: x = param  (plain), views: x = param.nodes[..], for .. in param.nodes(data=True)
     roots: Set[str] = {param}
     views: Set[str] = set()
+    alias_stmts: Dict[str, list] = {}   # alias name -> statements `alias = <root>`
+    pm0 = {}
+    for p_ in ast.walk(fn):
+        for c_ in ast.iter_child_nodes(p_):
+            pm0[c_] = p_
+
+    def _guards(node):
+        out_, child, cur = [], node, pm0.get(node)
+        while cur is not None and cur is not fn:
+            if isinstance(cur, ast.If):
+                if any(x is child for x in cur.body):
+                    out_.append((id(cur), True))
+                elif any(x is child for x in cur.orelse):
+                    out_.append((id(cur), False))
+            child, cur = cur, pm0.get(cur)
+        return out_
+
+    def _compatible(alias_name, node):
+        """some `alias = root` statement can reach `node` (not in the opposite branch of a common `if`)"""
+        stmts = alias_stmts.get(alias_name)
+        if not stmts:
+            return True
+        gn = dict(_guards(node))
+        for st_ in stmts:
+            ga = dict(_guards(st_))
+            if not any(k in gn and gn[k] != v for k, v in ga.items()):
+                return True
+        return False
+
     changed = True
     while changed:
         changed = False
@@ -107,8 +136,11 @@ def mutations(repo: Repo, fi: FuncInfo, param: str, depth: int = 2,
             if isinstance(n, ast.Assign) and len(n.targets) == 1:
                 t, v = n.targets[0], n.value
                 if isinstance(t, ast.Name):
-                    if isinstance(v, ast.Name) and v.id in roots and t.id not in roots:
-                        roots.add(t.id); changed = True
+                    if isinstance(v, ast.Name) and v.id in roots:
+                        if n not in alias_stmts.setdefault(t.id, []) and t.id != param:
+                            alias_stmts[t.id].append(n)
+                        if t.id not in roots:
+                            roots.add(t.id); changed = True
                     elif isinstance(v, ast.IfExp) and any(isinstance(b, ast.Name) and b.id in roots for b in (v.body, v.orelse)) \
                             and t.id not in roots and t.id != param:
                         roots.add(t.id); changed = True
@@ -125,6 +157,21 @@ def mutations(repo: Repo, fi: FuncInfo, param: str, depth: int = 2,
                         if nm not in views and nm not in roots:
                             views.add(nm); changed = True
     live = roots | views
+    view_src: Dict[str, str] = {}
+    for n_ in walk_local(fn, into_nested=True):
+        if isinstance(n_, (ast.For, ast.comprehension)):
+            r_ = _root(n_.iter)
+            if r_ in roots:
+                for x_ in ast.walk(n_.target):
+                    if isinstance(x_, ast.Name):
+                        view_src.setdefault(x_.id, r_)
+        if isinstance(n_, ast.Assign) and len(n_.targets) == 1 and isinstance(n_.targets[0], ast.Name):
+            r_ = _root(n_.value)
+            if r_ in roots and n_.targets[0].id in views:
+                view_src.setdefault(n_.targets[0].id, r_)
+
+    def _alias_root_of(name):
+        return name if name in roots else view_src.get(name, name)
 
     kills = {r: kills_for(r) for r in roots}
 
@@ -155,6 +202,8 @@ def mutations(repo: Repo, fi: FuncInfo, param: str, depth: int = 2,
             if r in live and (_is_view_expr(recv, live)):
                 if r in roots and killed(stmt_of(n), r):
                     continue
+                if not _compatible(_alias_root_of(r), n):
+                    continue
                 # `.copy()`-like receivers are not views
                 if _is_copy_call(recv):
                     continue
@@ -172,7 +221,7 @@ def mutations(repo: Repo, fi: FuncInfo, param: str, depth: int = 2,
             for tt in (t.elts if isinstance(t, (ast.Tuple, ast.List)) else [t]):
                 if isinstance(tt, (ast.Subscript, ast.Attribute)):
                     r = _root(tt)
-                    if r in live and not (r in roots and killed(stmt_of(n), r)):
+                    if r in live and not (r in roots and killed(stmt_of(n), r)) and _compatible(_alias_root_of(r), n):
                         if isinstance(tt, ast.Attribute) and isinstance(tt.value, ast.Name) and tt.value.id == "self":
                             continue
                         out.append((n, f"`{norm(tt)} = ...` writes into `{param}`" + ("" if r == param else f" through `{r}`")))
